@@ -67,6 +67,34 @@ def make_db(name):
         ])
         db.set_unknown_macro_spec(MacroSpec(''))
         db.set_unknown_environment_spec(EnvironmentSpec(''))
+    elif name == 'legacyverb':
+        # real code only: pylatexenc-2 verbatim parsers with regular arguments in front of the verbatim one
+        from pylatexenc.macrospec import VerbatimArgsParser
+        db.add_context_category('v', macros=[
+            MacroSpec('lstinline', args_parser=VerbatimArgsParser(verbatim_arg_type='verb-macro', verbatim_argspec='[')),
+            MacroSpec('vb', args_parser=VerbatimArgsParser(verbatim_arg_type='verb-macro', verbatim_argspec='*[')),
+        ], environments=[
+            EnvironmentSpec('lst', args_parser=VerbatimArgsParser(verbatim_arg_type='verbatim-environment', verbatim_argspec='[{')),
+        ])
+        db.set_unknown_macro_spec(MacroSpec(''))
+        db.set_unknown_environment_spec(EnvironmentSpec(''))
+    elif name == 'chained':
+        # real code only: chained parsing-state deltas (the model knows enter / leave math mode only)
+        from pylatexenc.latexnodes import ParsingStateDeltaChained, ParsingStateDelta
+        other = lambda: ParsingStateDelta(set_attributes={'enable_comments': False})
+        db.add_context_category('h', macros=[
+            MacroSpec('ct', [LatexArgumentSpec('{', parsing_state_delta=ParsingStateDeltaChained(
+                [ParsingStateDeltaLeaveMathMode(), other()]))]),
+            MacroSpec('cm', [LatexArgumentSpec('{', parsing_state_delta=ParsingStateDeltaChained(
+                [other(), ParsingStateDeltaEnterMathMode(), other()])), LatexArgumentSpec('{')]),
+            MacroSpec('cn', [LatexArgumentSpec('{', parsing_state_delta=ParsingStateDeltaChained(
+                [ParsingStateDeltaEnterMathMode(), ParsingStateDeltaLeaveMathMode()]))]),
+        ], environments=[
+            EnvironmentSpec('cmath', '', body_parsing_state_delta=ParsingStateDeltaChained(
+                [ParsingStateDeltaEnterMathMode(), other()])),
+        ])
+        db.set_unknown_macro_spec(MacroSpec(''))
+        db.set_unknown_environment_spec(EnvironmentSpec(''))
     elif name == 'bare':
         db.set_unknown_macro_spec(MacroSpec(''))
         db.set_unknown_environment_spec(EnvironmentSpec(''))
@@ -88,7 +116,9 @@ def ctx_wire(name):
 
 
 CONTEXTS = ['default', 'custom', 'custom-nofallback', 'bare']
-UNMODELLED_CONTEXTS = ['commasep']          # wire entry 999 does not exist: model and implementation dump both say BADIN
+UNMODELLED_CONTEXTS = ['commasep', 'legacyverb', 'chained']          # wire entry 999 does not exist: model and implementation dump both say BADIN
+SYM_LEGACYVERB = ['\\lstinline', '\\vb', '[o]', '*', '|', 'x', ' ', '{a}', '+a b+', '\n', '\\begin{lst}', '\\end{lst}', '%c\n', '[', '$']
+SYM_CHAINED = ['\\ct', '\\cm', '\\cn', '{', '}', 'a', ' ', '$', '\\begin{cmath}', '\\end{cmath}', '%c\n', '\\(', '\\)', '{x}']
 SYM_COMMASEP = ['\\cs', '\\ck', '{', '}', ',', ',,', 'a', ' ', 'b,', '{c}', '%x\n', '$', '\\cs{', '\n\n', '[', '\\z']
 
 # ---------------------------------------------------------------------------
